@@ -1877,7 +1877,9 @@ def evaluate__round(self: XPathFunction, context: ta.ContextType = None) \
 
         if precision < 0:
             number = number.quantize(decimal.Decimal(1), context=ctx)
-        return type(arg)(number)
+        # The result of a type derived from xs:integer (e.g. xs:byte) is an xs:integer,
+        # because it can be out of the range of the derived type: round(xs:byte(125), -1)
+        return int(number) if isinstance(arg, int) else type(arg)(number)
     except TypeError as err:
         if isinstance(context, XPathSchemaContext):
             return []
